@@ -68,6 +68,7 @@ def directed_cases(seed: int, tier: str) -> typing.List[dict]:
                 "same-twice": [dict(base), dict(base), dict(base, entry="cli")],
                 "one-call-helper-over-edited-inputs": [{"lang": lang, "entry": "gt"}, {"lang": lang, "entry": "gt", "variant": True}, {"lang": lang, "entry": "gt"}, {"lang": lang, "entry": "gt", "omit_ser": True}],
                 "one-call-helper-other-language-first": [{"lang": LANGS[(li + 1) % 3], "entry": "gt"}, {"lang": lang, "entry": "gt"}, {"lang": "html", "entry": "gt"}, {"lang": lang, "entry": "gt", "omit_ser": True}],
+                "template-raises-mid-line-then-retry": [dict(base, abort_at=1, abort_style="stream", abort_file=1, abort_write=3), dict(base), dict(base, abort_at=1, abort_style="stream", abort_file=0, abort_write=1), dict(base, reuse=True)],
                 "abort-mid-file-then-reuse": [dict(base, abort_at=5, abort_style="write"), dict(base, reuse=True), dict(base)],
                 "abort-on-empty-line-then-reuse": [dict(base, omit_ser=True, abort_at=1, abort_style="write", abort_file=0, abort_write=2), dict(base, omit_ser=True, reuse=True), dict(base, omit_ser=True, abort_at=1, abort_style="write", abort_file=1, abort_write=9), dict(base, omit_ser=True, reuse=True)],
                 "edited-inputs-first": [dict(base, variant=True), dict(base), dict(base, variant=True)],
@@ -442,8 +443,8 @@ def run_case(case: dict, ctx: dict) -> dict:
                     t["entry"] = "cli"
                 if ro.chance(1, 5):
                     t["abort_at"] = ro.between(1, 12)
-                    if ro.chance(1, 2):
-                        t["abort_style"] = "write"
+                    if ro.chance(2, 3):
+                        t["abort_style"] = ro.choice(["write", "stream"])
                         t["abort_file"] = ro.below(3)
                         t["abort_write"] = ro.weighted([(ro.below(12), 3), (ro.below(60), 1)])
                 if ro.chance(1, 8):
@@ -585,7 +586,7 @@ def run_case(case: dict, ctx: dict) -> dict:
         reference(op)
 
     # ---- the history, in *this* interpreter
-    seams = Seams({"sandbox": sandbox, "clock": dict(nnvg.FROZEN_CLOCK), "sort_enum": True, "extprog": "ok"})
+    seams = Seams({"sandbox": sandbox, "clock": dict(nnvg.FROZEN_CLOCK), "sort_enum": True, "extprog": "ok", "stream_fault_seam": True})
     seams.install()
     install_order_seam()
     cx = Ctx(world, roots, files)
@@ -615,8 +616,13 @@ def run_case(case: dict, ctx: dict) -> dict:
         seams.fault_fired = None
         seams.mut_count = 0
         seams.wopen_count = 0
+        seams.stream_fault = None
+        seams.stream_calls = 0
         if op.get("abort_at") is not None:
-            if op.get("abort_style") == "write":
+            if op.get("abort_style") == "stream":
+                # the template (a filter, an assert) raises after part of a line was already handed over
+                seams.stream_fault = {"call": op.get("abort_file", op["abort_at"] % 4), "after_chars": op.get("abort_write", 0) * 11 + 5}
+            elif op.get("abort_style") == "write":
                 # the exception strikes in the middle of a file (after some lines went through the post-processors)
                 seams.fault = {"kind": "write_oserror", "errno": "EIO", "file": op.get("abort_file", op["abort_at"] % 4), "write": op.get("abort_write", (op["abort_at"] * 7) % 23), "partial": 50}
             else:
@@ -661,6 +667,7 @@ def run_case(case: dict, ctx: dict) -> dict:
                 bump("ops", "invocation-raised:" + type(ex).__name__)
         finally:
             seams.fault = None
+            seams.stream_fault = None
             if swapped:
                 seams.enabled = False
                 swap_inputs(False)
